@@ -452,7 +452,7 @@ Proof.
   intros st0 c0 tr s i s' Hi R A. destruct (inv_run tr _ _ (inv_init _ _ Hi) R) as (_ & I2 & _).
   unfold Model.accept in A. destruct (pmark s) as [m|] eqn:PM; [|discriminate].
   destruct (m =? i) eqn:E; [|discriminate]. apply N.eqb_eq in E. subst m.
-  destruct (I2 i eq_refl) as (Hh & _ & Hn). inversion A; subst s'. simpl. repeat split; auto; try discriminate. left; reflexivity.
+  destruct (I2 i eq_refl) as (Hh & _ & Hn). inversion A; subst s'. simpl. repeat split; auto; try (left; reflexivity).
 Qed.
 
 (* a completed piece is never written again and stays completed, whatever event is accepted *)
@@ -468,7 +468,6 @@ Proof.
   - destruct e; try discriminate.
     + destruct (memN p (conns s)); [discriminate|]. inversion A; subst s'. auto.
     + destruct (memN p (conns s)); inversion A; subst s'; auto.
-      destruct (disc_spec s p) as (D1 & D2 & _). unfold piece. rewrite D1, D2. auto.
     + destruct ((i0 <? npieces) && negb (listed s i0) && negb (memN i0 (completed s))); [|discriminate]. inversion A; subst s'. auto.
     + destruct (find_block s i0 b); [|discriminate]. destruct (_ && _); [|discriminate]. inversion A; subst s'. auto.
     + destruct (find_block s i0 b); [|discriminate]. destruct (memN p (b_queued b0)); [|discriminate]. inversion A; subst s'. auto.
